@@ -442,7 +442,12 @@ pub fn exec(w: &mut World, op: &Op) -> Outcome {
             cache.shrink_to_fit();
             Outcome::Unit
         }
-        OpKind::DebugFmt => Outcome::Debug(format!("{:?}", cache)),
+        OpKind::DebugFmt => {
+            // both renderings; the pretty one is appended after a separator and must show the same order
+            let plain = format!("{:?}", cache);
+            let pretty = format!("{:#?}", cache);
+            Outcome::Debug(format!("{}\u{1}{}", plain, pretty))
+        }
         OpKind::Getters => {
             let h = cache.hasher();
             Outcome::Getters {
